@@ -142,6 +142,9 @@ def random_driver(rng, tid, maxN, maxW):
                 continue
             w.construct(r, rng.choice([1, 2, 3]), rng.randint(0, S.MAX_TRACE_EPOCH - 1))
         elif r in w.its:
+            if c > 0.85:
+                w.abandon(r)  # break out of the loop / islice(len): the iterator is never exhausted
+                continue
             for _ in range(rng.randint(1, max(1, N))):
                 budget -= 1
                 if w.step(r) == "end":
